@@ -115,6 +115,7 @@ type vfPeer struct {
 	cnt     orda.Counter
 	errs    int
 	errText string
+	lastReq *model.PushPullMessage // the latest request sent (a copy may be delivered again later)
 	states  []model.StateOfDatatype
 	lastS   uint64
 	lastC   uint64
@@ -293,6 +294,7 @@ func countState(l []model.StateOfDatatype, s model.StateOfDatatype) int {
 func (p *vfPeer) exchange(w *vfWorld, fault int, held *[]*model.PushPullPack) {
 	req := orda.VFCreatePack(p.cnt)
 	msg := &model.PushPullMessage{Header: model.NewMessageHeader(model.RequestType_PUSHPULLS), Collection: vfCol, Cuid: p.cuid(), PushPullPacks: []*model.PushPullPack{req}}
+	p.lastReq = copyMsg(msg)
 	if fault == 2 {
 		_, _ = w.svc.ProcessPushPull(gocontext.TODO(), copyMsg(msg))
 	}
@@ -335,9 +337,30 @@ func VF_C07_Faults() {
 		steps = 5
 	}
 	trace := ""
+	if vf.Choice("prefix", 2) == 1 {
+		// a fault-free prefix that leaves a request of a in the network whose checkpoint is
+		// older than what a has pulled since: b+ B0 A0 (one step less is explored after it)
+		_, _ = b.cnt.IncreaseBy(vfDeltas[di])
+		total += vfDeltas[di]
+		di++
+		b.exchange(w, 0, &heldB)
+		a.exchange(w, 0, &heldA)
+		trace = "b+B0A0 "
+		steps--
+	}
 	panicked, msg := vf.Try(func() {
 		for i := 0; i < steps; i++ {
-			switch vf.Choice("step", 5) {
+			switch vf.Choice("step", 6) {
+			case 5: // a second copy of a's latest request is delivered only now; its response reaches a
+				if a.lastReq == nil {
+					vf.Assume(false)
+				}
+				res, err := w.svc.ProcessPushPull(gocontext.TODO(), copyMsg(a.lastReq))
+				vf.Assert(err == nil && res != nil && len(res.PushPullPacks) == 1, "C16 request is answered")
+				orda.VFApplyPack(a.cnt, copyPack(res.PushPullPacks[0]))
+				vf.Quiesce()
+				a.checkpointMonotone()
+				trace += "Da"
 			case 0:
 				_, _ = a.cnt.IncreaseBy(vfDeltas[di])
 				total += vfDeltas[di]
